@@ -224,7 +224,7 @@ theorem header_layout (h : Hdr) (chk : Bytes) (hc : chk.length = 8) :
     ∧ slice b 116 8 = numField h.flavor 8 h.gid ∧ slice b 124 12 = numField h.flavor 12 h.size ∧ slice b 136 12 = numField h.flavor 12 h.mtime
     ∧ slice b 148 8 = chk ∧ slice b 156 1 = [h.typeflag] ∧ slice b 157 100 = strField 100 h.linkname
     ∧ slice b 257 6 = h.flavor.magic ∧ slice b 265 32 = strField 32 h.uname ∧ slice b 297 32 = strField 32 h.gname
-    ∧ slice b 329 8 = devField h := by
+    ∧ slice b 329 8 = devField h ∧ slice b 345 155 = strField 155 h.pfx := by
   intro b
   have D : (devField h).length = 8 := by unfold devField; cases h.dev <;> simp [octField_length]
   have L : ∀ w s, (strField w s).length = w := strField_length
@@ -232,7 +232,7 @@ theorem header_layout (h : Hdr) (chk : Bytes) (hc : chk.length = 8) :
   have O12 : ∀ n, (numField h.flavor 12 n).length = 12 := fun n => numField_length _ 12 n (by decide)
   have M : h.flavor.magic.length = 6 := by cases h.flavor <;> rfl
   have V : h.flavor.version.length = 2 := by cases h.flavor <;> rfl
-  refine ⟨?_, ?_, ?_, ?_, ?_, ?_, ?_, ?_, ?_, ?_, ?_, ?_, ?_, ?_⟩
+  refine ⟨?_, ?_, ?_, ?_, ?_, ?_, ?_, ?_, ?_, ?_, ?_, ?_, ?_, ?_, ?_⟩
   · simp [b, fields, L, O8, O12, hc, M, V, D]
   · exact slice_flatten [] _ _ 0 100 rfl (L _ _)
   · exact slice_flatten [_] _ _ 100 8 (by simp [L]) (O8 _)
@@ -247,6 +247,7 @@ theorem header_layout (h : Hdr) (chk : Bytes) (hc : chk.length = 8) :
   · exact slice_flatten [_, _, _, _, _, _, _, _, _, _, _] _ _ 265 32 (by simp [L, O8, O12, hc, M, V]) (L _ _)
   · exact slice_flatten [_, _, _, _, _, _, _, _, _, _, _, _] _ _ 297 32 (by simp [L, O8, O12, hc, M, V]) (L _ _)
   · exact slice_flatten [_, _, _, _, _, _, _, _, _, _, _, _, _] _ _ 329 8 (by simp [L, O8, O12, hc, M, V]) D
+  · exact slice_flatten [_, _, _, _, _, _, _, _, _, _, _, _, _, _, _] _ _ 345 155 (by simp [L, O8, O12, hc, M, V, D]) (L _ _)
 
 /-- replacing the checksum field by blanks gives the block the checksum was computed over -/
 theorem blank_block (h : Hdr) (chk : Bytes) (hc : chk.length = 8) :
@@ -259,7 +260,7 @@ theorem blank_block (h : Hdr) (chk : Bytes) (hc : chk.length = 8) :
   have hsplit : ∀ c : Bytes, (fields h c).flatten
       = (strField 100 h.name ++ numField h.flavor 8 h.mode ++ numField h.flavor 8 h.uid ++ numField h.flavor 8 h.gid ++ numField h.flavor 12 h.size ++ numField h.flavor 12 h.mtime)
         ++ (c ++ ([h.typeflag] ++ strField 100 h.linkname ++ h.flavor.magic ++ h.flavor.version ++ strField 32 h.uname ++ strField 32 h.gname
-            ++ devField h ++ devField h ++ zeros 167)) := by
+            ++ devField h ++ devField h ++ strField 155 h.pfx ++ zeros 12)) := by
     intro c; simp [fields, List.append_assoc]
   have hA : (strField 100 h.name ++ numField h.flavor 8 h.mode ++ numField h.flavor 8 h.uid ++ numField h.flavor 8 h.gid ++ numField h.flavor 12 h.size
       ++ numField h.flavor 12 h.mtime).length = 148 := by simp [L, O8, O12]
@@ -283,6 +284,8 @@ structure HdrOK (h : Hdr) : Prop where
   unameNul : (0 : UInt8) ∉ h.uname
   gnameLen : h.gname.length ≤ 32
   gnameNul : (0 : UInt8) ∉ h.gname
+  prefixLen : h.pfx.length ≤ 155
+  prefixNul : (0 : UInt8) ∉ h.pfx
   mode : h.mode < numBound h.flavor 8
   uid : h.uid < numBound h.flavor 8
   gid : h.gid < numBound h.flavor 8
@@ -302,15 +305,15 @@ theorem checksumOf_lt (h : Hdr) : checksumOf h < 8 ^ 6 := by
 
 /-- **header round trip**: the reader recovers every field and accepts the checksum -/
 theorem readHeader_headerBlock (h : Hdr) (ok : HdrOK h) : readHeader (headerBlock h) = some h := by
-  obtain ⟨hlen, h0, h1, h2, h3, h4, h5, h6, h7, h8, h9, h10, h11, h12⟩ := header_layout h (chkField h) (chkField_length h)
+  obtain ⟨hlen, h0, h1, h2, h3, h4, h5, h6, h7, h8, h9, h10, h11, h12, h13⟩ := header_layout h (chkField h) (chkField_length h)
   have hblank := blank_block h (chkField h) (chkField_length h)
   unfold readHeader
-  simp only [] at hlen h0 h1 h2 h3 h4 h5 h6 h7 h8 h9 h10 h11 h12 hblank
+  simp only [] at hlen h0 h1 h2 h3 h4 h5 h6 h7 h8 h9 h10 h11 h12 h13 hblank
   change (headerBlock h).length = 512 at hlen
   rw [if_neg (by rw [hlen]; simp)]
   unfold headerBlock
   rw [if_neg (by rw [h9]; cases h.flavor <;> decide)]
-  simp only [h0, h1, h2, h3, h4, h5, h6, h7, h8, h9, h10, h11, h12, hblank]
+  simp only [h0, h1, h2, h3, h4, h5, h6, h7, h8, h9, h10, h11, h12, h13, hblank]
   have hchk : readOct (chkField h) = some (checksumOf h) := by
     unfold chkField
     exact readOct_octFixed 6 _ (by decide) (checksumOf_lt h) 0 [32] (Or.inl rfl)
@@ -319,7 +322,8 @@ theorem readHeader_headerBlock (h : Hdr) (ok : HdrOK h) : readHeader (headerBloc
     readNum_numField _ 12 _ (by decide) ok.mtime]
   simp only [checksumOf, ne_eq, not_true_eq_false, if_false]
   rw [readStr_strField 100 _ ok.nameLen ok.nameNul, readStr_strField 100 _ ok.linkLen ok.linkNul,
-    readStr_strField 32 _ ok.unameLen ok.unameNul, readStr_strField 32 _ ok.gnameLen ok.gnameNul]
+    readStr_strField 32 _ ok.unameLen ok.unameNul, readStr_strField 32 _ ok.gnameLen ok.gnameNul,
+    readStr_strField 155 _ ok.prefixLen ok.prefixNul]
   have hf : (if h.flavor.magic = Flavor.gnu.magic then Flavor.gnu else Flavor.ustar) = h.flavor := by
     cases h.flavor <;> decide
   have hd : (devField h != zeros 8) = h.dev := by
@@ -336,7 +340,7 @@ theorem isZeroBlock_zeros (n : Nat) : isZeroBlock (zeros n) = true := by
   simp [isZeroBlock, zeros]
 
 theorem header_not_zero (h : Hdr) (tail : Bytes) : isZeroBlock ((headerBlock h ++ tail).take 1024) = false := by
-  obtain ⟨hlen, _, _, _, _, _, _, _, _, _, h9, _, _, _⟩ := header_layout h (chkField h) (chkField_length h)
+  obtain ⟨hlen, _, _, _, _, _, _, _, _, _, h9, _, _, _, _⟩ := header_layout h (chkField h) (chkField_length h)
   change (headerBlock h).length = 512 at hlen
   change slice (headerBlock h) 257 6 = h.flavor.magic at h9
   rw [Bool.eq_false_iff]
